@@ -147,12 +147,12 @@ def r2(prog, run):
                 sy = f.sym(n) or {}
                 nm = sy.get('name')
                 if nm in ('isEmpty', 'isNull') and n.get('obj') is not None:
-                    o = f.nodes[f.skip(n['obj'])]
+                    o = f.nodes[f.resolve(n['obj'])]          # through a local alias (const auto &token = credentials.htToken)
                     if o['k'] == 'mem' and o.get('f', '').startswith(NS + 'Credentials::'):
                         fld = o['f'].split('::')[-1]
                         return ((fld in env['empty']) if nm == 'isEmpty' else False,)
                 if nm in ('operator bool', 'has_value') and n.get('obj') is not None:
-                    o = f.nodes[f.skip(n['obj'])]
+                    o = f.nodes[f.resolve(n['obj'])]
                     if o['k'] == 'mem' and o.get('f', '').endswith('Credentials::htToken'):
                         return (env['token'],)
                 if nm == 'holds_alternative':
@@ -554,6 +554,31 @@ def r6(prog, run):
                         cand = f.nodes[f.skip(d)] if d is not None else m
                         if cand['k'] == 'call' and _exact_lookup(prog, f, cand):
                             exact = True
+                if isinstance(pol, bool):
+                    # an iterator found by std::find(table, name) / std::find_if(table, [&](entry) { return entry.name == name; }) and compared with end()
+                    for j in f.walk(c):
+                        m = f.nodes[j]
+                        if m['k'] != 'var' or m.get('vk') != 'local' or f.single_def(m['decl']) is None:
+                            continue
+                        cand = f.nodes[f.skip(f.single_def(m['decl']))]
+                        if cand['k'] != 'call' or f.cname(cand) not in ('std::find', 'std::find_if', 'std::ranges::find', 'std::ranges::find_if'):
+                            continue
+                        bo2 = f.binop(f.skip(c))
+                        found_edge = bo2 and ((bo2[0] == '!=' and pol is True) or (bo2[0] == '==' and pol is False))
+                        if not found_edge:
+                            continue
+                        if f.cname(cand).endswith('find') and cand.get('args') and f.nodes[f.skip(cand['args'][-1])].get('pidx') == 0:
+                            exact = True
+                        for a in cand.get('args', []):
+                            an = f.nodes[f.skip(a)]
+                            if an['k'] == 'lambda':
+                                for lam in prog.lambda_fns(f, an):
+                                    rets = [rn for _, rn in lam.returns() if 'e' in rn]
+                                    if len(rets) == 1:
+                                        b3 = lam.binop(lam.skip(rets[0]['e']))
+                                        if b3 and b3[0] == '==' and any(lam.nodes[lam.skip(x)]['k'] == 'var' and lam.nodes[lam.skip(x)].get('outer')
+                                                                        and lam.nodes[lam.skip(x)].get('decl') == f.params[0]['var'] for x in b3[1:]):
+                                            exact = True
             if exact:
                 run.ok(rid, f.loc(i), '%s returns %s only for an exactly matching name' % (f.qname.split('::')[-2], txt[-50:]))
             else:
